@@ -5,9 +5,9 @@ CONSTANTS
   Kinds = {"const", "mov", "out"}
   Rule = "noexempt"
   Filter = FALSE
-  RandLen = 0
+  RandLens = {}
+  RandKinds = {}
   RandCount = 0
 SPECIFICATION Spec
-INVARIANT AllocatedRunAgrees
 INVARIANT ExemptionNeeded
 CHECK_DEADLOCK FALSE
